@@ -235,16 +235,35 @@ func c13System(rng *rand.Rand, forceDefault bool) (sig, detail string, trace []s
 			silentAt = 1
 		}
 	}
+	slowAlive := !forceDefault && ping != 150 && rng.Intn(6) == 0
+	if slowAlive {
+		// a broker that answers every PINGREQ late but well within the keep-alive timeout, while the much shorter
+		// RetryClient.ResponseTimeout (which is about requests, not about keep-alive) is configured as well
+		ping, to = 50, 400
+		sc.PingMs, sc.TimeoutMs, sc.RespMs, sc.PingDelayMs = ping, to, 20, 100
+		n, silentAt = 1, -1
+	}
 	// (healthy runs keep the small timeout - a generous one would hide a lost PINGRESP until long after the
 	// run; a load-induced expiry is filtered by confirming the verdict on repeated executions, see c13Run)
 	tag := 0
 	for i := 0; i <= n; i++ {
 		if i == silentAt {
+			if rng.Intn(2) == 0 {
+				// surplus PINGRESPs before the silence, sent in the middle of a keep-alive interval (the steps run
+				// in step with the ticks): they answer nothing that is asked later
+				sc.Steps = append(sc.Steps, scen.Step{Op: "sleep", Ms: (ping + 1) / 2})
+				for k := 1 + rng.Intn(2); k > 0; k-- {
+					sc.Steps = append(sc.Steps, scen.Step{Op: "extrapingresp"})
+				}
+			}
 			sc.Steps = append(sc.Steps, scen.Step{Op: "silentping"}, scen.Step{Op: "sleep", Ms: 2*to + 2*ping}, scen.Step{Op: "pingok"})
 		}
 		if i < n {
 			tag++
 			sc.Steps = append(sc.Steps, scen.Step{Op: "pub", QoS: byte(1 + rng.Intn(2)), Tag: fmt.Sprintf("m%d", tag), Wait: rng.Intn(2) == 0}, scen.Step{Op: "sleep", Ms: ping * (1 + rng.Intn(3))})
+			if slowAlive {
+				sc.Steps = append(sc.Steps, scen.Step{Op: "sleep", Ms: 4 * ping}) // three or four late answers
+			}
 		}
 	}
 	sc.KeepOpen = true
@@ -365,6 +384,21 @@ func c13System(rng *rand.Rand, forceDefault bool) (sig, detail string, trace []s
 	if len(dropped) == 0 {
 		return "", "", nil, "silent-no-ping-dropped"
 	}
+	// keep-alive pings are sequential: while one is unanswered no further PINGREQ is sent on that connection.
+	// (A surplus PINGRESP that reaches the client while a Ping is being set up or is pending counts as its answer -
+	// PINGRESP carries no identifier - so the rule only applies when every surplus PINGRESP was consumed well
+	// before the unanswered PINGREQ was written.)
+	ambiguous := false
+	for _, e := range ev {
+		if e.Kind == memnet.KConsumed && e.Conn == dropped[0].Conn && e.S == "unsolicited PINGRESP" && e.T > dropped[0].T-interval/4 {
+			ambiguous = true
+		}
+	}
+	for _, d := range dropped[1:] {
+		if d.Conn == dropped[0].Conn && !ambiguous && interval >= 100*time.Millisecond {
+			return fail("unanswered-ping-taken-for-answered", "connection %d: PINGREQ #%d was never answered, yet the keep-alive went on to send another PINGREQ (#%d) instead of timing out", d.Conn, dropped[0].Seq, d.Seq)
+		}
+	}
 	// the connection whose PINGREQ was dropped must be closed by the library with ErrPingTimeout, then a new connection
 	c := dropped[0].Conn
 	msg, ok := closedCB[c]
@@ -419,6 +453,18 @@ func c13Run(c fw.Case, env *fw.Env) fw.Result {
 		} else {
 			seed := rng.Int63()
 			sig, det, trc, shape = c13System(rand.New(rand.NewSource(seed)), p.Mode == "default")
+			if sig == "unanswered-ping-taken-for-answered" {
+				// (a goroutine stalled between registering for the PINGRESP and writing the PINGREQ could still let a
+				// surplus PINGRESP in: three out of three, or it does not count)
+				for k := 0; k < 2; k++ {
+					if s2, _, _, _ := c13System(rand.New(rand.NewSource(seed)), p.Mode == "default"); s2 != sig {
+						r.Counters["surplus_pingresp_verdicts_not_confirmed"]++
+						sig, det, trc = "", "", nil
+						shape = "surplus-unconfirmed"
+						break
+					}
+				}
+			}
 			if sig == "healthy-connection-closed" {
 				// A small ping timeout can expire on a loaded machine although the response was sent, which
 				// legitimately closes the connection. The verdict stands only if the same scenario does it
